@@ -21,7 +21,7 @@ const (
 	maxNativeFunctionsCount  = 256
 	maxScriggoFunctionsCount = 256
 	maxFieldIndexesCount     = 256
-	maxSelectCasesCount      = 65536
+	maxSelectCasesCount      = 65535 // reflect.Select accepts 65536 cases, one is for the done channel of the context
 
 	// Maximum number of parameters plus results of a function type, that is
 	// the limit of the reflect package.
